@@ -61,6 +61,10 @@
 //@endfn
 }
 
+// every function that can touch the two fields must be under contract (new ones => undecided, exit 2)
+//@inventory src/problems/individual.rs :: impl<P: Problem + ?Sized> Individual<P> :: new, new_unevaluated, evaluate_with, set_objective, solution, solution_mut, into_solution, is_evaluated, get_objective, objective
+//@inventory src/problems/individual.rs :: impl<P: Problem> Clone for Individual<P> :: clone, clone_from
+
 //@implhdr src/problems/individual.rs :: impl<P: Problem> Clone for Individual<P> :: rehome
 //@fn src/problems/individual.rs :: impl<P: Problem> Clone for Individual<P> :: clone :: ret=r :: novis
     ensures
@@ -68,6 +72,14 @@
         cloned(self.solution, r.solution),
         self.objective is Some <==> r.objective is Some,
         self.objective is Some ==> cloned(self.objective->0, r.objective->0),
+//@endfn
+
+//@fn src/problems/individual.rs :: impl<P: Problem> Clone for Individual<P> :: clone_from :: novis :: optional
+    ensures
+        // an overriding `clone_from` must behave like `*self = source.clone()`
+        cloned(source.solution, final(self).solution),
+        source.objective is Some <==> final(self).objective is Some,
+        source.objective is Some ==> cloned(source.objective->0, final(self).objective->0),
 //@endfn
 }
 
